@@ -135,8 +135,15 @@ def check_paths(prog: Program, ci: ClassInfo, paths, label: str, state_keys: set
             elif isinstance(f, ast.Attribute) and ((dotted(f.value) or "") == "cls" or (isinstance(f.value, ast.Call) and (dotted(f.value.func) or "") == "type")):
                 target = prog.find_method(ci, f.attr)
             else:
-                tg = prog.resolve_call(ev.fi, ev.node)
-                target = (tg.classes() or tg.funcs() or [None])[0]
+                # the receiver as it is on this path (a class handed in as an argument of a helper is known here)
+                fs = ev.expr.func
+                if isinstance(fs, ast.Attribute) and isinstance(fs.value, ast.Name) and fs.value.id[:1].isupper():
+                    cands = prog.find_classes(fs.value.id)
+                    if len(cands) == 1:
+                        target = prog.find_method(cands[0], fs.attr)
+                if target is None:
+                    tg = prog.resolve_call(ev.fi, ev.node)
+                    target = (tg.classes() or tg.funcs() or [None])[0]
             if target is None:
                 continue
             if any(k.arg is None for k in ev.expr.keywords):
